@@ -56,6 +56,10 @@ def units(tier):
     add(["S2", "R2", "R1"], 1, close=1)
     add(["S1", "S1", "R2"], 0, close=0)
     add(["S2", "R2"], "sym", close=1)
+    # the cancelled scope lies behind a shield: the party is a live receiver / sender like any other
+    add(["S2", "R1", "R1"], 0, cancel=1, behind_shield=True)
+    add(["S2", "R2"], "sym", cancel=1, behind_shield=True)
+    add(["S1", "S1", "R2"], 0, cancel=0, behind_shield=True)
     if not quick:
         # every 3-party combination with at least one sender and one receiver, each party cancelled in turn
         import itertools as _it
